@@ -3,7 +3,9 @@
    buffer and XML node before/after the query, run twice), whether the repeated query returned
    an equal result, and (for saves) whether the bytes written equal those of the never-queried
    twin.  [case_ok] compares the measured sets with the model's declared write sets. *)
-From Coq Require Import List NArith Bool.
+From Coq Require Import List ZArith NArith Bool.
+From PC Require Import Base.Outcome Base.Py Gen.Transforms Model.Transforms Model.Strips Model.Triangulate
+  Model.IndexedList Model.Traverse Model.PurityQueries.
 From PC Require Import Model.Purity.
 Import ListNotations.
 
@@ -11,13 +13,83 @@ Definition k_save := 30%N.
 Definition k_own := 31%N.
 Definition k_edit := 32%N.   (* an edit applied to the document and its twin alike *)
 
-(* kind, classes changed by the first run, by the second run, repeat equal, same as twin *)
-Definition step := (N * list N * list N * bool * bool)%type.
+(* ---- the concrete models of Model/PurityQueries.v run on the implementation's own data *)
+Inductive conc :=
+| CNone
+| CTri (vc : list nat) (rows : list row) (r1 r2 : option (list (tri row)))   (* None: raised *)
+| CInputs (src : list (N * list input)) (seen : list input)
+| CLookups (items : list obj) (index : list (N * N)) (ls : list (lookup * option (option N))).
+
+Fixpoint nlist_eqb (a b : list N) : bool :=
+  match a, b with
+  | [], [] => true
+  | x :: a', y :: b' => N.eqb x y && nlist_eqb a' b'
+  | _, _ => false
+  end.
+Definition tri_eqb (a b : tri row) : bool :=
+  let '(a1, a2, a3) := a in let '(b1, b2, b3) := b in nlist_eqb a1 b1 && nlist_eqb a2 b2 && nlist_eqb a3 b3.
+Fixpoint tris_eqb (a b : list (tri row)) : bool :=
+  match a, b with
+  | [], [] => true
+  | x :: a', y :: b' => tri_eqb x y && tris_eqb a' b'
+  | _, _ => false
+  end.
+Definition optN_eqb (a b : option N) : bool :=
+  match a, b with Some x, Some y => N.eqb x y | None, None => true | _, _ => false end.
+Definition input_eqb (a b : input) : bool :=
+  let '(a1, a2, a3, a4) := a in let '(b1, b2, b3, b4) := b in
+  N.eqb a1 b1 && N.eqb a2 b2 && N.eqb a3 b3 && optN_eqb a4 b4.
+Fixpoint inputs_eqb (a b : list input) : bool :=
+  match a, b with
+  | [], [] => true
+  | x :: a', y :: b' => input_eqb x y && inputs_eqb a' b'
+  | _, _ => false
+  end.
+
+Definition doc_of (vc : list nat) (rows : list row) (src : list (N * list input)) (lib : il) : cdoc Z :=
+  CDoc Z vc rows src lib [] 0%N [] None None.
+
+Definition tri_res_ok (r : cres Z) (seen : option (list (tri row))) : bool :=
+  match r, seen with
+  | RTri _ (Ok t), Some t' => tris_eqb t t'
+  | RTri _ (Raise _), None => true
+  | _, _ => false
+  end.
+
+Definition conc_ok (c : conc) : bool :=
+  match c with
+  | CNone => true
+  | CTri vc rows r1 r2 =>
+      (* first call computes and fills the cache, second call answers from it *)
+      let s0 := doc_of vc rows [] (IL [] []) in
+      let '(s1, a1) := cexec zops QTriangleset s0 in
+      let '(s2, a2) := cexec zops QTriangleset s1 in
+      tri_res_ok a1 r1 && tri_res_ok a2 r2 &&
+      match r1, c_tri s1 with Some _, Some _ => true | None, None => true | _, _ => false end
+  | CInputs src seen =>
+      match snd (cexec zops QInputList (doc_of [] [] src (IL [] []))) with
+      | RInputs _ l => inputs_eqb l seen
+      | _ => false
+      end
+  | CLookups items index ls =>
+      let s0 := doc_of [] [] [] (IL items index) in
+      forallb (fun ls1 : lookup * option (option N) =>
+                 match snd (cexec zops (QLookup (fst ls1)) s0), snd ls1 with
+                 | RLookup _ (Ok r), Some r' => optN_eqb r r'
+                 | RLookup _ (Raise PyKeyError), None => true
+                 | _, _ => false
+                 end) ls
+  end.
+
+(* kind, classes changed by the first run, by the second run, repeat equal, same as twin,
+   concrete-model observation *)
+Definition step := (N * list N * list N * bool * bool * conc)%type.
 
 Definition subset (xs ys : list N) : bool := forallb (fun x => in_classes x ys) xs.
 
 Definition step_ok (s : step) : bool :=
-  let '(k, ch1, ch2, rep, twin) := s in
+  let '(k, ch1, ch2, rep, twin, cc) := s in
+  conc_ok cc &&
   if N.eqb k k_save then twin
   else if N.eqb k k_edit then true
   else if N.eqb k k_own then rep && subset ch1 [] && subset ch2 []
